@@ -106,6 +106,7 @@ def run_property(pid, tier, seed=0):
     canary_total = 0
     canary_fired = 0
     assumed_contracts = set()
+    always_assumed = set()
     for res in results:
         tag = f"{res['unit']}/{res['digit']}/{res['mode']}"
         if res['canary']:
@@ -147,9 +148,11 @@ def run_property(pid, tier, seed=0):
                 samples.append(dict(function=it['key'], digit=res['digit'], mode=res['mode'], obligations=it['obligations'], status=it['status']))
         for s in res['stubs']:
             assumed_contracts.add(s)
+        for s in res.get('assumed', []):
+            always_assumed.add(s)
     # contracts used as stubs whose home unit was verified in this run are proved, not assumed
     proved_here = {f['fn'] for f in functions if f['status'] == 'proved'}
-    assumed = sorted(s for s in assumed_contracts if s not in proved_here)
+    assumed = sorted({s for s in assumed_contracts if s not in proved_here} | always_assumed)
     # ---- report
     os.makedirs(os.path.join(VERIF, 'build', 'replays'), exist_ok=True)
     exit_code = 0
@@ -236,16 +239,56 @@ def rebaseline():
     print(f'baseline: {len(proved)} proved, {bad} not proved')
 
 
+def dev_unit(unit, digit, mode, canary):
+    digits = P.ALL_DIGITS if digit == 'all' else digit.split(',')
+    rc = 0
+    results = RUN.verify_many([(unit, d, mode, canary) for d in digits], workers=4)
+    for res in results:
+        print(f"== {unit} {res['digit']} {mode}: verus {res['verus_status']} verified={res['verified']} errors={res['errors']} wall={res['wall_s']:.1f}s file={res['file']}")
+        for pb in res['problems']:
+            print('  PROBLEM', pb)
+        for e in res['other_errors']:
+            print('  ERROR (not a verification failure):', e['item'], e['message'])
+            print(e['rendered'])
+            rc = 2
+        for e in res['unattributed_failures']:
+            print('  FAILURE outside own items:', e['item'], e['message'])
+            print(e['rendered'])
+        if not res['ran_verification'] and res['stderr_tail']:
+            print(res['stderr_tail'])
+        for it in res['items']:
+            if canary:
+                if it['kind'] != 'proof' and (it['canaries_fired'] or 0) < it['n_canaries']:
+                    print(f"  CANARY DID NOT FIRE {it['key']} {it['canaries_fired']}/{it['n_canaries']}")
+                    rc = rc or 1
+                continue
+            if it['status'] != 'proved':
+                rc = rc or 1
+                print(f"  {it['status'].upper()} {it['key']}  (align {it['align_ratio']}, smt {it['smt_us']}us)")
+                for f in it['failures']:
+                    print(f['rendered'])
+        slow = sorted([i for i in res['items'] if (i['smt_us'] or 0) > 5e6], key=lambda i: -i['smt_us'])
+        for i in slow:
+            print(f"  SLOW {i['key']} {i['smt_us']/1e6:.1f}s rlimit={i['rlimit']}")
+    return rc
+
+
 def main(argv=None):
     ap = argparse.ArgumentParser()
     ap.add_argument('prop', nargs='?')
     ap.add_argument('--tier', default=os.environ.get('VERIF_TIER', 'quick'))
     ap.add_argument('--replay')
     ap.add_argument('--rebaseline', action='store_true')
+    ap.add_argument('--unit', help='developer: verify one unit and print failures')
+    ap.add_argument('--digit', default='u64')
+    ap.add_argument('--mode', default='dbg')
+    ap.add_argument('--canary', action='store_true')
     a = ap.parse_args(argv)
     if a.rebaseline:
         rebaseline()
         return 0
+    if a.unit:
+        return dev_unit(a.unit, a.digit, a.mode, a.canary)
     if a.replay:
         from . import cex as CEX
         return CEX.replay(a.replay)
